@@ -33,6 +33,7 @@ package scan
 
 import (
 	"fmt"
+	"time"
 	"math"
 	"math/big"
 	"math/bits"
@@ -55,6 +56,8 @@ type c04src struct {
 }
 
 var c04rand c04src
+
+var c04hung bool // a unit was abandoned by the watchdog: the rest of the enumeration is skipped
 
 func (s *c04src) next(n uint64) uint64 {
 	var v uint64
@@ -504,7 +507,7 @@ func verifC04(c *drv.Ctx) {
 			if c.NShard > 1 && u.shard != c.Shard {
 				continue
 			}
-			if c.Expired() {
+			if c.Expired() || c04hung {
 				continue
 			}
 			t0 := c04nowMs()
@@ -519,7 +522,20 @@ func verifC04(c *drv.Ctx) {
 			case 'c':
 				c04partC(c, rows, u, need(uint64(u.n)+1), fail)
 			case 'd':
-				c04partD(c, rows, u, fail)
+				// a unit of (d) takes milliseconds; one that is still running after a minute never ends (e.g. a
+				// range limit that wrapped to 0 makes the constructor walk the whole group looking for a first value)
+				if c04hung {
+					break
+				}
+				uu := u
+				if !drv.Watchdog(60*time.Second, func() { c04partD(c, rows, uu, fail) }) {
+					c04hung = true
+					r := rows[u.row]
+					fail('d', u.row, fmt.Sprintf("d:row%d:n=%d:hang", r.K, u.n), fmt.Sprintf("n=%d draws=(%d,%d) [row %d: P=%d]: constructing the iterator and taking its first 65536 values did not finish within 60 s (it takes milliseconds): the iteration does not terminate / does not start", u.n, u.r1, u.r2, r.K, r.P), nil)
+					c.R.Exhaustive = false
+					c.Note("a unit of section (d) was abandoned by the hang watchdog; the rest of this shard's enumeration was not run")
+					c.FlushAndExit() // the abandoned goroutine still runs the code under test
+				}
 			}
 			defer0()
 		}
